@@ -202,6 +202,8 @@ def expected(spec):
                     attrs['LONG-NAME'] = {'count': 1, 'rc': 20, 'units': '', 'vals': ['t' + hx(o['name'])]}
             if o['kind'] in ('parameter', 'computation'):
                 a = o['attrs'].get('values')
+                if a is not None and isinstance(a['v'], list) and not flat(a['v']) and attrs['DIMENSION'] is None:
+                    attrs['DIMENSION'] = 'ANY'       # no values: a dimension is meaningless either way
                 if a is not None and flat(a['v'] if isinstance(a['v'], list) else [a['v']]) and attrs['DIMENSION'] is None:
                     v = a['v'] if isinstance(a['v'], list) else [a['v']]
                     shape = list(np.array(v).shape[1:])
